@@ -3,7 +3,7 @@
    strict decoder Format.dec (offset relative to the slot, reserved null, member index). *)
 From Coq Require Import ZArith List Bool Lia.
 Import ListNotations.
-From XO Require Import Slots Strides BufOps Types Format Check LayoutProofs RefOps RefOpsProofs.
+From XO Require Import Slots Strides BufOps Types Format Check LayoutProofs RoundTrip RefOps RefOpsProofs RefDecode.
 Open Scope Z_scope.
 
 Theorem C08_bind_existing_aliases : forall st o p target m st1,
@@ -40,6 +40,30 @@ Theorem C08_growth_preserves_bytes : forall m n, 0 <= n ->
   forall i, Z.of_nat (length m) <= i -> BufOpsProofs.byte m' i = 0.
 Proof. exact BufOpsProofs.grow_preserves. Qed.
 
+(* byte level, general: a reference slot holding rel denotes whatever is represented at slot+rel: a
+   reference to any (reference-free) object decodes to that object, of the recorded member type for a
+   union reference, and keeps doing so when the buffer grows (old bytes at the same offsets) *)
+Theorem C08_reference_resolves : forall t v img rel m off,
+  - 2^63 < rel < 2^63 -> sits (bytes (enc64 rel)) m off ->
+  enc t v = Some img -> sits img m (off + rel) -> len img < 2^62 ->
+  dec (TRef t) m off = Some (VRef v, 8).
+Proof. exact dec_ref_resolves. Qed.
+Theorem C08_union_reference_resolves : forall ms k mt v img rel m off,
+  - 2^63 < rel < 2^63 -> sits (bytes (enc64 rel) ++ bytes (enc64 (Z.of_nat k))) m off -> Z.of_nat k < 2^63 ->
+  nth_error ms k = Some mt -> enc mt v = Some img -> sits img m (off + rel) -> len img < 2^62 ->
+  dec (TUnion ms) m off = Some (VMember k v, 16).
+Proof. exact dec_union_resolves. Qed.
+Theorem C08_union_null : forall ms m off, sits (bytes (enc64 NULLVALUE) ++ bytes (enc64 (-1))) m off -> dec (TUnion ms) m off = Some (VNull, 16).
+Proof. exact dec_union_null. Qed.
+Theorem C08_reference_survives_growth : forall t v img rel m off extra,
+  - 2^63 < rel < 2^63 -> sits (bytes (enc64 rel)) m off ->
+  enc t v = Some img -> sits img m (off + rel) -> len img < 2^62 ->
+  dec (TRef t) (m ++ extra) off = Some (VRef v, 8).
+Proof. exact ref_survives_growth. Qed.
+Theorem C08_objects_survive_growth : forall t v img m off extra,
+  enc t v = Some img -> sits img m off -> len img < 2^62 -> dec t (m ++ extra) off = dec t m off.
+Proof. exact dec_survives_growth. Qed.
+
 Print Assumptions C08_bind_existing_aliases.
 Print Assumptions C08_alias_sees_writes.
 Print Assumptions C08_bind_value_fresh.
@@ -47,3 +71,8 @@ Print Assumptions C08_null_reads_none.
 Print Assumptions C08_null_slot_decodes.
 Print Assumptions C08_union_null_needs_minus_one.
 Print Assumptions C08_growth_preserves_bytes.
+Print Assumptions C08_reference_resolves.
+Print Assumptions C08_union_reference_resolves.
+Print Assumptions C08_union_null.
+Print Assumptions C08_reference_survives_growth.
+Print Assumptions C08_objects_survive_growth.
